@@ -1330,6 +1330,21 @@ func (g *Gen) faultTx() Op {
 	reporter := []int{1, 2, 1, 2, 3, 11}[r.Intn(6)]
 	var fs []FaultIn
 	var prov int
+	if r.Chance(10) {
+		// a fishman reports the destination of a migration that has not taken the shard over yet
+		for _, x := range li.shards {
+			if x.Status == ordertypes.ShardMigrating {
+				for _, o := range li.orders {
+					for _, id := range o.Shards {
+						if id == x.Id {
+							return Op{K: "report", Creator: []int{1, 2}[r.Intn(2)], Provider: g.acctIndex(x.Sp) + 1,
+								Faults: []FaultIn{{DataId: o.DataId, OrderId: o.Id, ShardId: x.Id, CommitId: "no-such-commit", Provider: g.acctIndex(x.Sp) + 1}}}
+						}
+					}
+				}
+			}
+		}
+	}
 	if r.Chance(15) {
 		// a fishman names an order and a live shard the accused holds — but for a *different* order
 		bySp := map[string][]ordertypes.Shard{}
